@@ -1,10 +1,16 @@
 (* C07 - typehint-derived validators are sound and complete for the annotated type.
-   PARTIAL: soundness is a theorem for the whole grammar, record classes included; strictness
-   with identical payloads (signature mode, C09_strict) for annotations without record classes;
-   completeness and payload identity in default mode are tied by the differential run against an
-   independent type oracle. *)
-From Coq Require Import ZArith List Bool.
-From KV Require Import Base.PyVal Base.Prims Model.Validator Model.Sem Model.Derive Proofs.DeriveP Proofs.DeriveR Corr.UserLib.
+   PARTIAL: soundness is a theorem for the whole grammar, record classes included, both
+   resolution modes.  Completeness with identical payloads is a theorem in signature mode
+   (nothing is coerced) for annotations without record classes / user validators (Literal members
+   str / int / bool / bytes / None)
+   (C07_complete_signature_mode_partial): a value of the annotated type is returned unchanged,
+   every other well-formed value gets an Invalid, never an exception.  In default mode the
+   unrestricted completeness statement is FALSE of the faithful model and of the implementation
+   (C07_complete_default_refuted, known finding): a coercing earlier union variant can raise on a
+   value that a later variant's type contains.  Default-mode completeness and payload identity
+   are otherwise tied by the differential run against an independent type oracle. *)
+From Coq Require Import ZArith List Bool Arith.
+From KV Require Import Base.PyVal Base.Prims Model.Validator Model.Sem Model.Derive Proofs.DeriveP Proofs.DeriveR Proofs.DeriveC Proofs.Agree Corr.UserLib.
 Import ListNotations.
 
 (* Valid(w) only if w is a value of the annotated type - for EVERY annotation of the grammar
@@ -39,6 +45,54 @@ Theorem C07_record_shape :
 Proof. exact derive_record. Qed.
 Print Assumptions C07_record_shape.
 
+(* signature mode: the derived validator decides the annotated type.  [cplain]: no user validator,
+   Literal members str / int / bool / bytes / None, record classes are dataclasses / NamedTuples with
+   a consistent class table.  [hproper]: the value is one Python can build (set members and dict keys
+   hashable and pairwise distinct, instances carry exactly their class's fields).  Fuel above the
+   annotation's height is enough whatever the value. *)
+Theorem C07_complete_signature_mode_partial :
+  forall (E : env) a, cplain E a = true ->
+    forall v, derive true a = Ok v ->
+    forall n x, (aheight a < n)%nat -> hproper E x = true ->
+      (has_type a x = true -> run E Sync n v x = OValid x) /\
+      (has_type a x = false -> exists i, run E Sync n v x = OInvalid i).
+Proof.
+  intros E a Hc v Hd n x Hn Hp. destruct (derive_complete E a Hc v Hd n x Hn Hp) as [N C].
+  split; [exact C|]. intros Hf. destruct (run E Sync n v x) as [w|i| | |] eqn:Er; try discriminate.
+  - destruct (derive_strict_all E a (cplain_okstrict E a Hc) v Hd n x w Er (hproper_inst E x Hp)) as [Ht _]. congruence.
+  - exists i. reflexivity.
+Qed.
+Print Assumptions C07_complete_signature_mode_partial.
+
+(* ... and the awaited asynchronous call gives the very same answer (with C06_agree) *)
+Corollary C07_complete_signature_mode_async :
+  forall (E : env), user_coherent E ->
+    forall a, cplain E a = true -> forall v, derive true a = Ok v ->
+    forall n x, (aheight a < n)%nat -> hproper E x = true ->
+      run E Async n v x = run E Sync n v x.
+Proof.
+  intros E Hu a Hc v Hd n x Hn Hp. destruct (derive_complete E a Hc v Hd n x Hn Hp) as [N _].
+  pose proof (run_agree E (uapred E) (uaobj E) Hu n v x N) as R. destruct E; exact R.
+Qed.
+Print Assumptions C07_complete_signature_mode_async.
+
+(* default mode: {"sNaN"} is a Set[str], yet Union[Set[Decimal], Set[str]] raises on it - the
+   Decimal variant coerces the member to Decimal('sNaN'), which cannot be hashed into the payload set *)
+Section Refuted.
+  Open Scope Z_scope.
+  Definition snan := VStr [115; 78; 97; 78].
+  Definition E_snan : env := mk_env [] [] [(OkDecimal, (snan, Some (VDecimal (DNan false true))))] [] [] [].
+  Definition U := AUnion [ASet (AScalar KDecimal); ASet (AScalar KStr)].
+  Example C07_complete_default_refuted :
+    has_type U (VSet [snan]) = true /\ hproper E_snan (VSet [snan]) = true /\
+    exists v, derive false U = Ok v /\ run E_snan Sync 6 v (VSet [snan]) = ORaise ExType.
+  Proof. split; [vm_compute; reflexivity|]. split; [vm_compute; reflexivity|]. eexists. split; [vm_compute; reflexivity|]. vm_compute. reflexivity. Qed.
+  (* the same annotation in signature mode accepts it unchanged *)
+  Example C07_complete_signature_mode_there :
+    exists v, derive true U = Ok v /\ run E_snan Sync 6 v (VSet [snan]) = OValid (VSet [snan]).
+  Proof. eexists. split; [vm_compute; reflexivity|]. vm_compute. reflexivity. Qed.
+End Refuted.
+
 (* non-vacuity *)
 Section Example.
   Open Scope Z_scope.
@@ -71,4 +125,17 @@ Section Example2.
               has_type DC (VObj 1%nat [(sa, VList [VDict [(sa, VInt 1)]]); (sb, VInt 7)]) = true /\
               (exists i, run E1 Sync 8 v (VDict [(sb, VInt 1)]) = OInvalid i).
   Proof. split; [reflexivity|]. eexists. repeat split; try (vm_compute; reflexivity). eexists. vm_compute. reflexivity. Qed.
+  (* signature mode: an instance of the dataclass is returned unchanged, a mapping is not an instance *)
+  Definition inst := VObj 1%nat [(sa, VList [VDict [(sa, VInt 1)]]); (sb, VInt 7)].
+  Definition DC2 := ARecord RkData 1%nat [(sa, (AList (ADict (AScalar KStr) (AScalar KInt)), true)); (sb, (AScalar KInt, false))].
+  Example C07_nonvacuous_complete :
+    cplain E1 DC2 = true /\ hproper E1 inst = true /\ has_type DC2 inst = true /\
+    exists v, derive true DC2 = Ok v /\ (aheight DC2 < 6)%nat /\
+              run E1 Sync 6 v inst = OValid inst /\
+              (exists i, run E1 Sync 6 v (VDict [(sa, VList [])]) = OInvalid i).
+  Proof.
+    split; [vm_compute; reflexivity|]. split; [vm_compute; reflexivity|]. split; [vm_compute; reflexivity|].
+    eexists. split; [vm_compute; reflexivity|]. split; [apply Nat.ltb_lt; vm_compute; reflexivity|].
+    split; [vm_compute; reflexivity|]. eexists. vm_compute. reflexivity.
+  Qed.
 End Example2.
